@@ -177,3 +177,43 @@ Theorem error_kills_only_that : forall n conts who rest v s c ws,
   co_wf (st_finish s who) ws.
 Proof. exact error_kills_only_that_lemma. Qed.
 Print Assumptions error_kills_only_that.
+
+(* ---- M-VM (bytecode-machine model, coq/VMX): the thread switch keeps every thread's own
+   registers, frames and open-upvalue list ---- *)
+From GL Require VMX.Machine VMX.ThreadFacts.
+
+Theorem vm_switch_keeps_threads : forall s t u,
+  ThreadFacts.th_valid s (Machine.vcur s) ->
+  Machine.get_thread (Machine.switch_to t s) u = Machine.get_thread s u.
+Proof. exact ThreadFacts.switch_keeps_threads. Qed.
+Print Assumptions vm_switch_keeps_threads.
+
+Theorem vm_switch_loads_target : forall s t,
+  ThreadFacts.th_valid s (Machine.vcur s) ->
+  Machine.vcur (Machine.switch_to t s) = t /\
+  Machine.vreg (Machine.switch_to t s) = Machine.th_reg (Machine.get_thread s t) /\
+  Machine.vstack (Machine.switch_to t s) = Machine.th_stack (Machine.get_thread s t) /\
+  Machine.vuvcache (Machine.switch_to t s) = Machine.th_uvcache (Machine.get_thread s t).
+Proof. exact ThreadFacts.switch_loads_target. Qed.
+Print Assumptions vm_switch_loads_target.
+
+Theorem vm_switch_roundtrip : forall s t,
+  ThreadFacts.th_valid s (Machine.vcur s) -> ThreadFacts.th_valid s t ->
+  let s' := Machine.switch_to (Machine.vcur s) (Machine.switch_to t s) in
+  Machine.vreg s' = Machine.vreg s /\ Machine.vstack s' = Machine.vstack s /\
+  Machine.vuvcache s' = Machine.vuvcache s /\ Machine.vcur s' = Machine.vcur s /\
+  Machine.vuvs s' = Machine.vuvs s /\ Machine.vclos s' = Machine.vclos s /\
+  Machine.vtabs s' = Machine.vtabs s /\ Machine.vtrace s' = Machine.vtrace s /\
+  (forall u, Machine.get_thread s' u = Machine.get_thread s u).
+Proof. exact ThreadFacts.switch_roundtrip. Qed.
+Print Assumptions vm_switch_roundtrip.
+
+Theorem vm_set_thread_other : forall s t th u, u <> t ->
+  Machine.get_thread (Machine.set_thread s t th) u = Machine.get_thread s u.
+Proof. exact ThreadFacts.set_thread_other. Qed.
+Print Assumptions vm_set_thread_other.
+
+Theorem vm_set_thread_same : forall s t th, ThreadFacts.th_valid s t ->
+  Machine.get_thread (Machine.set_thread s t th) t = th.
+Proof. exact ThreadFacts.set_thread_same. Qed.
+Print Assumptions vm_set_thread_same.
